@@ -171,6 +171,23 @@ CHECKS["C12"] = dict(
          "compared by class. Signed zero stored as +0. BYSCORE/BYLEX/LIMIT forms of ZRANGE not modelled.",
 )
 
+CHECKS["C18"] = dict(
+    category="proof", design_ref="DESIGN.md §6 C18", engine="exec",
+    technique="Lean 4 executable stream model with kernel-checked theorems (ID order invariant over programs, rejection leaves the keyspace unchanged, range scan = interval filter, trimming drops a prefix, auto-ID checker sound) + differential correspondence (replies and stream dumps incl. last ID) on generated XADD/XRANGE programs",
+    text="XADD and XRANGE are modelled as total Lean functions on the shared keyspace (Exec/Stream.lean): IDs are pairs of unsigned 64-bit numbers in "
+         "lexicographic order, a stream keeps its entries and the greatest ID ever appended. Props/C18.lean proves, for the definitions the driver "
+         "runs: every reachable stream is strictly increasing (for all programs), the ID XADD answers is stored and exceeds all earlier ones, an explicit "
+         "ID that is not greater (and 0-0) is refused with the keyspace unchanged, the one-pass range scan returns exactly the entries of the interval "
+         "for every bound form, a missing key yields the empty array and creates nothing, MAXLEN/MINID drop exactly the oldest entries down to the bound, "
+         "NOMKSTREAM on a missing key creates nothing, and an auto ID accepted by the checker is strictly greater than the last one. The model is tied "
+         "to the Go executors by generated programs (explicit, partial and auto IDs from a colliding alphabet incl. the 2^63/2^64 boundaries and IDs ahead "
+         "of the clock; all options with damage; all bound forms; binary fields; other types, deadlines and expired keys on the same keys) run through "
+         "server.Manager.ExecCommand, comparing every reply and the dump of the touched streams.",
+    note="Trusted: Lean kernel (propext, Classical.choice, Quot.sound), harness/driver/dump hook, strconv mirrored by the model's integer parsers. "
+         "Error replies compared by class. Auto IDs (XADD *) are judged in checker mode against the second-granular clock bracket of the harness. "
+         "Approximate trimming (~) is modelled as exact trimming (a permitted outcome).",
+)
+
 NOT_YET = "check not built yet in this round; see DESIGN.md §8"
 NOT_APPLICABLE = {}
 
